@@ -51,7 +51,16 @@ def judge (f out : List String) : Verdict :=
       | ["ok", n, vs] => some (if n == "0" then ([] : List Str) else (vs.splitOn ",").map String.toList)
       | _ => none
     let outN := match out with | "err" :: _ => ["err"] | o => o
-    if enumerable then
+    if !inDom then
+      -- a letter outside the 15 codes: outside the property (its statement has no rejection clause).
+      -- Not judged; the reply is compared with the behaviour RECORDED by the extractor for every
+      -- other rune (Gen.iupacOtherRows), and a difference is counted as drift only.
+      let m := match allVariantsAny cs with
+        | some vs => ["ok", toString vs.length, ",".intercalate (vs.map String.ofList)]
+        | none => ["err"]
+      { corr := outN == m, judge := none, cls := "variants/out-of-domain",
+        detail := if outN == m then "" else lineOf (m.take 2) }
+    else if enumerable then
       -- the property: the expansion, every reading once and nothing else.  A refusal (`err`), an
       -- empty or partial list, a panic … is a FAIL whatever the number of readings (no threshold
       -- is taken from the code here)
